@@ -5,7 +5,7 @@ from __future__ import annotations
 import ast
 
 from .repo import AnalysisError, FuncInfo
-from .terms import (App, Atom, Attr, BoundMethod, BuiltinRef, ClassRef, Closure, Comp, Elem, EnumVal, FStr, FuncRef,
+from .terms import (ModelFn, App, Atom, Attr, BoundMethod, BuiltinRef, ClassRef, Closure, Comp, Elem, EnumVal, FStr, FuncRef,
                     ModRef, Mut, Obj, Op, Opaque, Star, Sub, Sym, Term, contains_term, vkey)
 
 MUTATORS = {"append", "extend", "insert", "pop", "remove", "clear", "add", "discard", "update", "setdefault",
@@ -262,6 +262,16 @@ class CallMixin:
             return args[0]
         if isinstance(fv, BuiltinRef):
             return self.call_builtin(fv.name, args, kwargs, node, fr)
+        if isinstance(fv, ModelFn):
+            return fv.fn(self, args, kwargs, node, fr)
+        if qual == "typing.cast" and len(args) == 2:
+            return args[1]
+        if qual == "collections.defaultdict" and len(args) <= 1 and not kwargs:
+            from collections import defaultdict
+
+            fac = {"list": list, "set": set, "dict": dict, "int": int}.get(args[0].name) if args and isinstance(args[0], BuiltinRef) else None
+            if fac is not None or not args:
+                return defaultdict(fac)
         if isinstance(fv, Closure):
             return self.call_function(fv.fi, args, kwargs, node, fr, closure=fv.frame)
         if isinstance(fv, FuncRef):
@@ -387,7 +397,8 @@ class CallMixin:
                             if n in names and n not in fields:
                                 v = self.const_value(c2.module, ve)
                                 fields[n] = v if v is not NotImplemented else Sym(f"{qual}.{n}")
-            o = Obj(qual, fields, args, kwargs)
+            frozen = any("frozen=True" in d.replace(" ", "") or d in ("element", "message") for d in decos)
+            o = Obj(qual, fields, args, kwargs, frozen=frozen and is_dc)
             return o
         return Obj(qual, {}, args, kwargs)
 
@@ -445,11 +456,11 @@ class CallMixin:
         if name == "bool":
             return self.truth(a0, node, fr) if args else False
         if name == "iter" and args:
-            items = self.concrete_iter(a0)
-            if items is not None and not isinstance(a0, _ConcreteIter):
-                return _ConcreteIter(items)
             if isinstance(a0, _ConcreteIter):
                 return a0
+            items = self.concrete_iter(a0)
+            if items is not None:
+                return _ConcreteIter(items)
             return App("iter", (a0,), fname="iter")
         if name == "next" and args:
             if isinstance(a0, _ConcreteIter):
@@ -463,6 +474,26 @@ class CallMixin:
                 if self.decide(f"exhausted({vkey(a0)})#{self.next_uid()}", node):
                     return self.raise_implicit("builtins.StopIteration", node, fr)
             return App("next", args, uid=self.next_uid(), fname="next")
+        if name == "zip" and args and all(self._as_citer(x) is not None for x in args):
+            its = [self._as_citer(x) for x in args]
+            out = []
+            strict = bool(kwargs.get("strict", False))
+            while True:
+                row = []
+                stop = False
+                for i, it in enumerate(its):
+                    if it.pos < len(it.items):
+                        row.append(it.items[it.pos])
+                        it.pos += 1
+                    else:
+                        stop = True
+                        if strict and (i > 0 or any(o.pos < len(o.items) for o in its[1:])):
+                            return self.raise_implicit("builtins.ValueError", node, fr)
+                        break
+                if stop:
+                    break
+                out.append(tuple(row))
+            return _ConcreteIter(out)
         concrete = all(_plain(x) for x in args) and all(_plain(x) for x in kwargs.values())
         if concrete and name in SAFE_BUILTINS:
             try:
@@ -495,6 +526,15 @@ class CallMixin:
         if name == "super":
             return Opaque("super()")
         return sym()
+
+    def _as_citer(self, x):
+        from .stmts import _ConcreteIter
+
+        if isinstance(x, _ConcreteIter):
+            return x
+        if isinstance(x, (list, tuple)):
+            return _ConcreteIter(x)
+        return None
 
     def isinstance_(self, v, spec, node, fr) -> bool:
         repo = self.repo
